@@ -63,6 +63,16 @@ class Spec:
             assert not step.violations and not st2.dead, lab
         out.append(("two-streams-open", st2))
         if self.client:
+            # an h2c-upgraded client: stream 1 was used by the upgrade request
+            st4 = S()
+            st4.h = H.Solo(True, handshake=False)
+            st4.h.conn.initiate_upgrade_connection()
+            o = st4.h.rx([wire.settings([])])
+            assert o.kind == "ok", o.brief()
+            st4.h.m.upgrade()
+            st4.dead = False
+            st4.wire_hi = 1
+            out.append(("upgraded", st4))
             # the same with the PEER's MAX_CONCURRENT_STREAMS at 2: the next open is refused for concurrency - and must not
             # have used up its id or left anything behind; once a stream has finished the same id opens
             st3 = pickle.loads(pickle.dumps(st))
@@ -109,6 +119,7 @@ class Spec:
                 for p in PROMISED:
                     if p <= TOP:
                         acts.append("rx:PP:%d:%d" % (parents[0], p))      # also ids of streams that are live right now
+                acts.append("rx:PPR:%d:4" % parents[0])
             for s_ in live:
                 if m.streams[s_].state == SM.RES_REMOTE:
                     acts.append("rx:resp:%d" % s_)           # the pushed response starts: the promised stream is open now
@@ -279,7 +290,10 @@ class Spec:
                 st.dead = True
                 return Step("peer-open-" + show(got), viols, prune=True)
             out = "peer-open-" + show(got)
-        elif parts[:2] == ["rx", "H"] or parts[:2] == ["rx", "PP"]:
+        elif parts[:2] == ["rx", "H"] or parts[:2] == ["rx", "PP"] or parts[:2] == ["rx", "PPR"]:
+            rbit = parts[1] == "PPR"          # the reserved bit in front of the promised id is set: to be ignored (RFC 7540 6.6)
+            if rbit:
+                parts = ["rx", "PP"] + parts[2:]
             if parts[1] == "H":
                 sid = int(parts[2])
                 fr = wire.headers(sid, sb(H.REQ))
@@ -287,6 +301,9 @@ class Spec:
             else:
                 parent, sid = int(parts[2]), int(parts[3])
                 fr = wire.push_promise(parent, sid, sb(H.REQ))
+                if rbit:
+                    import struct
+                    fr = wire.raw(wire.PUSH_PROMISE, 4, parent, struct.pack(">I", 0x80000000 | sid) + sb(H.REQ))
                 meta = ("push", parent, sid)
             status = m.status(sid)
             s0 = m.get(sid)
@@ -318,7 +335,14 @@ class Spec:
                         exp = alt = ("SE", wire.REFUSED_STREAM)
                     elif got == ("SE", wire.REFUSED_STREAM):
                         exp = got
-            if got != exp and got != alt:
+            if rbit and got == ("CE", wire.PROTOCOL_ERROR):
+                pass          # refusing the frame outright is tolerated; acting on an id above 2^31-1 is not
+            elif rbit and o.kind == "ok" and any(getattr(e, "pushed_stream_id", sid) != sid for e in o.events):
+                bad("reserved-bit-not-ignored", "PUSH_PROMISE promising %d with the reserved bit set was taken as a promise of stream %r" % (
+                    sid, [getattr(e, "pushed_stream_id", None) for e in o.events]))
+                st.dead = True
+                return Step("peer-open-rbit", viols, prune=True)
+            elif got != exp and got != alt:
                 bad("peer-open-wrong-outcome",
                     "peer %s with id %d (%s, closed_by=%s): expected %s, got %s [%s]" % (
                         "HEADERS" if parts[1] == "H" else "PUSH_PROMISE", sid, status, closed_by, show(exp), show(got), o.brief()),
